@@ -70,6 +70,12 @@ def worker(a):
             rep = "U"
             cur = Uex
 
+            def CALL(f, *args):
+                r, m_ = L.twice(f, *args)
+                if m_:
+                    out.append(m_ + " (%s)" % tag)
+                return r
+
             def checkUB(U, B, what):
                 v = []
                 if not L.close(U, Uex, scale=1.0):
@@ -105,7 +111,7 @@ def worker(a):
                             out.append("ubi_to_u(u_to_ubi(U)) differs from U by %.3g (%s)" % (float(np.abs(U - Uex).max()), tag))
                         cur, rep = U, "U"
                     elif step == "ubi_to_cell":
-                        c = list(mod.ubi_to_cell(cur))
+                        c = list(CALL(mod.ubi_to_cell, cur))
                         if not L.cell_close(c, cell0):
                             out.append("ubi_to_cell gives %s, the cell was %s (%s)" % ([float(x) for x in c], cell0, tag))
                         rep = "cell"
@@ -117,18 +123,18 @@ def worker(a):
                         rep = "UB"
                     elif step == "ub_to_u_b":
                         B0 = np.asarray(mod.form_b_mat(cell0), dtype=float)
-                        U, B = mod.ub_to_u_b(np.asarray(cur).dot(B0))
+                        U, B = CALL(mod.ub_to_u_b, np.asarray(cur).dot(B0))
                         out += checkUB(U, B, "ub_to_u_b(U.B)")
                         if not L.close(np.asarray(U).dot(B), Uex.dot(B0)):
                             out.append("ub_to_u_b: U.B != UB (%s)" % tag)
                         rep = "UB"
                     elif step in ("ubi_to_rod", "u_to_rod"):
-                        r = np.asarray(getattr(mod, step)(cur), dtype=float)
+                        r = np.asarray(CALL(getattr(mod, step), cur), dtype=float)
                         if not L.close(r, np.array(rod), scale=max(1.0, max(abs(x) for x in rod))):
                             out.append("%s gives %s, the Rodrigues vector is %s (%s)" % (step, r.tolist(), rod, tag))
                         cur, rep = np.array(rod), "rod"
                     elif step == "rod_to_u":
-                        U = np.asarray(mod.rod_to_u(cur), dtype=float)
+                        U = np.asarray(CALL(mod.rod_to_u, cur), dtype=float)
                         if not L.close(U, Uex, scale=1.0):
                             out.append("rod_to_u differs from the exact rotation by %.3g (%s)" % (float(np.abs(U - Uex).max()), tag))
                         cur, rep = U, "U"
